@@ -128,6 +128,20 @@ impl LocalSpanStack {
         }
     }
 
+    #[inline]
+    pub fn is_recording(&mut self) -> bool {
+        self.current_span_line()
+            .map(|span_line| span_line.is_recording())
+            .unwrap_or(false)
+    }
+
+    #[inline]
+    pub fn is_recording_span(&mut self, local_span_handle: &LocalSpanHandle) -> bool {
+        self.current_span_line()
+            .map(|span_line| span_line.is_recording_span(local_span_handle))
+            .unwrap_or(false)
+    }
+
     pub fn current_collect_token(&mut self) -> Option<CollectToken> {
         let span_line = self.current_span_line()?;
         span_line.current_collect_token()
